@@ -195,6 +195,12 @@ def sym_smul(c, kv, pt):
     px, py = _coords(pt)
     bits = 8 * c.nbytes
     rx, ry = u['smulx'](kb, px, py), u['smuly'](kb, px, py)
+    pv = z3.BitVecVal(c.p, bits)
+    k.axiom(('rng', rx.get_id()), z3.And(z3.ULT(rx, pv), z3.ULT(ry, pv)))       # coordinates are reduced
+    reg = getattr(k, '_smul_apps', None)
+    if reg is None:
+        reg = k._smul_apps = []
+    reg.append((c.name, rx, kb, pt.clone()))
     if c.fam != 'mont':
         _on_curve_fact(c, rx, ry)
     # Diffie-Hellman commutation with the scalar that produced pt
@@ -202,8 +208,10 @@ def sym_smul(c, kv, pt):
         b, base = pt.smul
         qx, qy = _coords(base)
         ax, ay = u['smulx'](kb, qx, qy), u['smuly'](kb, qx, qy)
+        if c.fam == 'mont':
+            ay = z3.BitVecVal(0, bits)          # x-only points: the second coordinate slot is always 0
         ox, oy = u['smulx'](b, ax, ay), u['smuly'](b, ax, ay)
-        k.axiom(('dh', rx.get_id()), z3.And(rx == ox, ry == oy))
+        k.axiom(('dh', rx.get_id()), z3.And(rx == ox, ry == oy) if c.fam != 'mont' else rx == ox)
         if c.fam == 'mont':
             k.axiom(('dhi', rx.get_id()), u['smulinf'](kb, px, py) == u['smulinf'](b, ax, ay))
     r = Pt(c, _sym_of_bv(rx, bits), _sym_of_bv(ry, bits) if c.fam != 'mont' else None,
@@ -222,8 +230,40 @@ def sym_add(c, P, Q):
     bits = 8 * c.nbytes
     rx, ry = u['addx'](px, py, qx, qy), u['addy'](px, py, qx, qy)
     _on_curve_fact(c, rx, ry)
+    pv = z3.BitVecVal(c.p, bits)
+    k.axiom(('rng', rx.get_id()), z3.And(z3.ULT(rx, pv), z3.ULT(ry, pv)))
     k.axiom(('comm', rx.get_id()), z3.And(rx == u['addx'](qx, qy, px, py), ry == u['addy'](qx, qy, px, py)))
     return Pt(c, _sym_of_bv(rx, bits), _sym_of_bv(ry, bits))
+
+
+def _recover_smul(c, x):
+    """a point rebuilt from the coordinates of an earlier SMUL result keeps its provenance
+    (needed for the Diffie-Hellman commutation fact after serialise/deserialise)"""
+    if not isinstance(x, SymInt):
+        return None
+    t = z3.simplify(_cbv(x, 8 * c.nbytes))
+    # 1. semantic match against the products built on this path (robust to re-encoding / masking)
+    k = ctx()
+    for cname, rx, kb, base in getattr(k, '_smul_apps', []):
+        if cname != c.name:
+            continue
+        if t.eq(rx) or k._check(t != rx) == z3.unsat:
+            return (kb, base.clone())
+    try:
+        if z3.is_app(t) and t.decl().name() == "SMULX_" + c.name and t.num_args() == 3:
+            bits = 8 * c.nbytes
+            base = Pt(c, _sym_or_int(t.arg(1), bits), _sym_or_int(t.arg(2), bits) if c.fam != 'mont' else None)
+            return (t.arg(0), base)
+    except Exception:
+        return None
+    return None
+
+
+def _sym_or_int(e, bits):
+    e = z3.simplify(e)
+    if z3.is_bv_value(e):
+        return e.as_long()
+    return _sym_of_bv(e, bits)
 
 
 def _scalar_value(kbuf, n):
@@ -276,7 +316,7 @@ class _TwoCoordLib(object):
         ok = core.sym_and(x < c.p, y < c.p, SymBool.make(_ufs(c)['on'](xe, ye)))
         if not ok:
             return ERR_EC_POINT
-        out.set(Pt(c, x, y))
+        out.set(Pt(c, x, y, smul=_recover_smul(c, x)))
         return 0
 
     def free_point(self, pt):
@@ -411,7 +451,7 @@ def _mont_lib(prefix, curve, with_context):
                 return 0
             x = core.int_from_bytes(rd(xb, n), 'big')
             # every x coordinate is accepted (RFC 7748: curve or twist); reduced mod p by the ladder
-            out.set(Pt(curve, x, None))
+            out.set(Pt(curve, x, None, smul=_recover_smul(curve, x)))
             return 0
 
         def free_point(self, pt):
